@@ -1,7 +1,1032 @@
-//! C06 — harness not built yet.
+//! C06 — the dictionary compiler is total and never emits an invalid dictionary.
+//!
+//! Structured stream: an abstract case (tokenised matrix lines + classified lexicon rows) is generated first and rendered to
+//! text; the implementation runs read_conn / read_lexicon / resolve / compile under catch_unwind; every compiled dictionary is
+//! loaded and probe texts are analysed in modes A, B, C (debug profile).  Malformed stream: byte-level damage of valid
+//! inputs (implementation only).  Fault enumeration: a Write that accepts exactly k bytes, for every k below the total.
 use crate::common::*;
+use serde_json::{json, Value};
+use std::io::Write;
+use sudachi::analysis::stateful_tokenizer::StatefulTokenizer;
+use sudachi::analysis::stateless_tokenizer::DictionaryAccess;
+use sudachi::analysis::Mode;
+use sudachi::config::ConfigBuilder;
+use sudachi::dic::build::DictBuilder;
+use sudachi::dic::dictionary::JapaneseDictionary;
+use sudachi::dic::storage::{Storage, SudachiDicData};
 
-pub fn run(_args: &Args) {
-    eprintln!("no harness for C06 yet");
-    std::process::exit(2);
+const KANA: [&str; 10] = ["あ", "い", "う", "か", "き", "く", "さ", "し", "す", "た"];
+const POS: [&str; 3] = ["名詞,普通名詞,一般,*,*,*", "助詞,格助詞,*,*,*,*", "動詞,一般,*,*,*,*"];
+pub const KNOWN_SPLIT: &str = "c06_split_surface_mismatch";
+/// user dictionary row with a dictionary-form reference: the builder validates `<n>` against the system dictionary, the reader
+/// resolves it inside the user lexicon (defect recorded by the C05/C12 group; only damaged bytes produce it here)
+pub const KNOWN_USER_DICFORM: &str = "c06_user_dic_form_reference";
+
+#[derive(Clone, Debug)]
+enum Tok {
+    Num(i64),
+    Bad(String),
+}
+#[derive(Clone, Debug)]
+enum Num {
+    Lit(i64),
+    Bad(String),
+}
+#[derive(Clone, Debug)]
+enum Wid {
+    Lit(bool, i64),
+    Bad(String),
+}
+#[derive(Clone, Debug, PartialEq)]
+enum StrKind {
+    Ok,
+    TooLong,
+    BadEscape,
+}
+#[derive(Clone, Debug)]
+struct Rec {
+    ncols: usize,
+    strings: StrKind,
+    surface: String,
+    left: Num,
+    right: Num,
+    cost: Num,
+    pos: usize,
+    dic_form: Option<Wid>,
+    mode: Option<u8>, // None = garbage
+    split_a: Vec<Wid>,
+    split_b: Vec<Wid>,
+    wstruct: Vec<Wid>,
+    syn_ok: bool,
+    has_syn: bool,
+    splits_concat: bool,
+}
+#[derive(Clone, Debug)]
+enum Base {
+    System(Vec<Vec<Tok>>),
+    User,
+}
+#[derive(Clone, Debug)]
+struct Case {
+    base: Base,
+    recs: Vec<Rec>,
+}
+
+// the system dictionary user dictionaries are built against: 4 x 3 matrix, 6 words
+const SYS_NL: i64 = 4;
+const SYS_NR: i64 = 3;
+const SYS_WORDS: usize = 6;
+
+fn surface_of(i: usize) -> String {
+    format!("{}{}", KANA[(i / 10) % 10], KANA[i % 10])
+}
+
+fn tok_text(t: &Tok) -> String {
+    match t {
+        Tok::Num(z) => z.to_string(),
+        Tok::Bad(s) => s.clone(),
+    }
+}
+fn num_text(n: &Num) -> String {
+    match n {
+        Num::Lit(z) => z.to_string(),
+        Num::Bad(s) => s.clone(),
+    }
+}
+fn wid_text(w: &Wid) -> String {
+    match w {
+        Wid::Lit(u, n) => format!("{}{}", if *u { "U" } else { "" }, n),
+        Wid::Bad(s) => s.clone(),
+    }
+}
+fn wids_text(ws: &[Wid]) -> String {
+    if ws.is_empty() {
+        "*".to_string()
+    } else {
+        ws.iter().map(wid_text).collect::<Vec<_>>().join("/")
+    }
+}
+
+impl Case {
+    fn matrix_text(&self, rng: &mut Rng) -> Option<String> {
+        match &self.base {
+            Base::User => None,
+            Base::System(lines) => {
+                let mut s = String::new();
+                for l in lines {
+                    if !l.is_empty() && rng.chance(1, 6) {
+                        s.push_str("  ");
+                    }
+                    let sep = if rng.chance(1, 5) { "\t" } else if rng.chance(1, 5) { "  " } else { " " };
+                    s.push_str(&l.iter().map(tok_text).collect::<Vec<_>>().join(sep));
+                    if !l.is_empty() && rng.chance(1, 6) {
+                        s.push(' ');
+                    }
+                    s.push('\n');
+                }
+                Some(s)
+            }
+        }
+    }
+    fn lexicon_text(&self) -> String {
+        let mut s = String::new();
+        for r in &self.recs {
+            let mut cols: Vec<String> = vec![r.surface.clone(), num_text(&r.left), num_text(&r.right), num_text(&r.cost), r.surface.clone()];
+            cols.extend(POS[r.pos % 3].split(',').map(|x| x.to_string()));
+            cols.push(if r.strings == StrKind::TooLong { "ア".repeat(11000) } else { "ヨミ".to_string() });
+            cols.push(if r.strings == StrKind::BadEscape { "x\\u{110000}".to_string() } else { r.surface.clone() });
+            cols.push(match &r.dic_form {
+                None => "*".to_string(),
+                Some(w) => wid_text(w),
+            });
+            cols.push(match r.mode {
+                Some(0) => "A".to_string(),
+                Some(1) => "B".to_string(),
+                Some(2) => "C".to_string(),
+                _ => "Q".to_string(),
+            });
+            cols.push(wids_text(&r.split_a));
+            cols.push(wids_text(&r.split_b));
+            cols.push(wids_text(&r.wstruct));
+            if r.has_syn {
+                cols.push(if r.syn_ok { "1/22".to_string() } else { "1/x".to_string() });
+            }
+            cols.truncate(r.ncols);
+            s.push_str(&cols.join(","));
+            s.push('\n');
+        }
+        s
+    }
+    fn coq(&self) -> String {
+        let base = match &self.base {
+            Base::User => format!("(UserDic {} {} {})", cz(SYS_NL), cz(SYS_NR), cz(SYS_WORDS as i64)),
+            Base::System(lines) => format!(
+                "(SystemDic {})",
+                clist(lines.iter().map(|l| clist(l.iter().map(|t| match t {
+                    Tok::Num(z) => format!("TNum {}", cz(*z)),
+                    Tok::Bad(_) => "TBad".to_string(),
+                }))))
+            ),
+        };
+        let num = |n: &Num| match n {
+            Num::Lit(z) => format!("(NumLit {})", cz(*z)),
+            Num::Bad(_) => "NumBad".to_string(),
+        };
+        let wid = |w: &Wid| match w {
+            Wid::Lit(u, n) => format!("WLit {} {}", cbool(*u), cz(*n)),
+            Wid::Bad(_) => "WBad".to_string(),
+        };
+        let recs = clist(self.recs.iter().map(|r| {
+            format!(
+                "mkRec {} {} {} {} {} {} {} {} {} {} {} {} {} {}",
+                cz(r.ncols as i64),
+                cbool(r.strings == StrKind::Ok),
+                cbool(r.surface.is_empty()),
+                num(&r.left),
+                num(&r.right),
+                num(&r.cost),
+                match &r.dic_form {
+                    None => "None".to_string(),
+                    Some(w) => format!("(Some ({}))", wid(w)),
+                },
+                match r.mode {
+                    Some(m) => format!("(Some {})", cz(m as i64)),
+                    None => "None".to_string(),
+                },
+                clist(r.split_a.iter().map(wid)),
+                clist(r.split_b.iter().map(wid)),
+                clist(r.wstruct.iter().map(wid)),
+                cbool(r.syn_ok || !r.has_syn),
+                cbool(r.splits_concat),
+                cbool(r.surface.contains('\0'))
+            )
+        }));
+        format!("(mkInput {} {})", base, recs)
+    }
+}
+
+struct Built {
+    status: &'static str,
+    msg: String,
+    bytes: Vec<u8>,
+}
+
+struct Env {
+    dir: std::path::PathBuf,
+    sys_bytes: Vec<u8>,
+}
+
+fn sys_matrix_text() -> String {
+    let mut m = format!("{} {}\n", SYS_NL, SYS_NR);
+    for r in 0..SYS_NR {
+        for l in 0..SYS_NL {
+            m.push_str(&format!("{} {} {}\n", l, r, l * 3 + r));
+        }
+    }
+    m
+}
+fn sys_lexicon_text() -> String {
+    let mut s = String::new();
+    for i in 0..SYS_WORDS {
+        // ids below both dimensions, so that this dictionary compiles whichever dimension the validation compares with
+        s.push_str(&format!("{},{},{},100,{},{},ヨミ,{},*,A,*,*,*\n", surface_of(90 + i), i % 3, i % 3, surface_of(90 + i), POS[i % 3], surface_of(90 + i)));
+    }
+    s
+}
+
+fn config(env: &Env) -> sudachi::config::Config {
+    let t = format!(
+        "{{\"path\":{},\"characterDefinitionFile\":\"char.def\",\"oovProviderPlugin\":[{{\"class\":\"com.worksap.nlp.sudachi.SimpleOovPlugin\",\"oovPOS\":[\"名詞\",\"普通名詞\",\"一般\",\"*\",\"*\",\"*\"],\"leftId\":0,\"rightId\":0,\"cost\":30000,\"userPOS\":\"allow\"}}]}}",
+        serde_json::to_string(&env.dir.to_string_lossy()).unwrap()
+    );
+    ConfigBuilder::from_bytes(t.as_bytes()).unwrap().build()
+}
+
+fn load_system(env: &Env) -> JapaneseDictionary {
+    JapaneseDictionary::from_cfg_storage(&config(env), SudachiDicData::new(Storage::Owned(env.sys_bytes.clone()))).expect("system dictionary loads")
+}
+
+/// read_conn; read_lexicon; resolve; compile into `w`
+fn build_into<W: Write>(env: &Env, matrix: Option<&[u8]>, lexicon: &[u8], w: &mut W) -> Result<Result<(), String>, String> {
+    match matrix {
+        Some(m) => catch(|| {
+            let mut b = DictBuilder::new_system();
+            b.read_conn(m).map_err(|e| format!("read_conn: {}", e))?;
+            b.read_lexicon(lexicon).map_err(|e| format!("read_lexicon: {}", e))?;
+            b.resolve().map_err(|e| format!("resolve: {}", e))?;
+            b.compile(w).map_err(|e| format!("compile: {}", e))?;
+            Ok(())
+        }),
+        None => {
+            let sys = load_system(env);
+            catch(|| {
+                let mut b = DictBuilder::new_user(&sys);
+                b.read_lexicon(lexicon).map_err(|e| format!("read_lexicon: {}", e))?;
+                b.resolve().map_err(|e| format!("resolve: {}", e))?;
+                b.compile(w).map_err(|e| format!("compile: {}", e))?;
+                Ok(())
+            })
+        }
+    }
+}
+
+fn build(env: &Env, matrix: Option<&[u8]>, lexicon: &[u8]) -> Built {
+    let mut out = Vec::new();
+    match build_into(env, matrix, lexicon, &mut out) {
+        Ok(Ok(())) => Built { status: "SOk", msg: String::new(), bytes: out },
+        Ok(Err(e)) => Built { status: "SErr", msg: e, bytes: vec![] },
+        Err(p) => Built { status: "SPanic", msg: p, bytes: vec![] },
+    }
+}
+
+struct LoadResult {
+    ok: bool,
+    msg: String,
+    dims: (i64, i64),
+    cells: Vec<(i64, i64, i64)>,
+}
+
+/// load the compiled dictionary and analyse the probe texts in every mode, touching every field of every morpheme
+fn load_and_analyse(env: &Env, user: bool, bytes: &[u8], probes: &[String]) -> LoadResult {
+    let mut res = LoadResult { ok: true, msg: String::new(), dims: (0, 0), cells: vec![] };
+    let cfg = config(env);
+    let r = catch(|| {
+        let mut data = SudachiDicData::new(Storage::Owned(if user { env.sys_bytes.clone() } else { bytes.to_vec() }));
+        if user {
+            data.add_user(Storage::Owned(bytes.to_vec()));
+        }
+        JapaneseDictionary::from_cfg_storage(&cfg, data)
+    });
+    let dict = match r {
+        Ok(Ok(d)) => d,
+        Ok(Err(e)) => {
+            res.ok = false;
+            res.msg = format!("compiled dictionary does not load: {}", e);
+            return res;
+        }
+        Err(p) => {
+            res.ok = false;
+            res.msg = format!("loading the compiled dictionary panicked: {}", p);
+            return res;
+        }
+    };
+    let (nl, nr) = (dict.grammar().conn_matrix().num_left() as i64, dict.grammar().conn_matrix().num_right() as i64);
+    res.dims = (nl, nr);
+    if nl * nr <= 400 {
+        for r in 0..nr {
+            for l in 0..nl {
+                res.cells.push((l, r, dict.grammar().connect_cost(l as i16, r as i16) as i64));
+            }
+        }
+    }
+    for t in probes {
+        for mode in [Mode::C, Mode::B, Mode::A] {
+            let r = catch(|| -> Result<usize, String> {
+                let mut tok = StatefulTokenizer::new(&dict, mode);
+                tok.reset().push_str(t);
+                tok.do_tokenize().map_err(|e| format!("{}", e))?;
+                let ml = tok.into_morpheme_list().map_err(|e| format!("{}", e))?;
+                let mut n = 0;
+                for m in ml.iter() {
+                    n += m.surface().len() + m.dictionary_form().len() + m.normalized_form().len() + m.reading_form().len() + m.part_of_speech().len();
+                    n += m.synonym_group_ids().len();
+                    for sm in [Mode::A, Mode::B] {
+                        let sub = m.split(sm).map_err(|e| format!("{}", e))?;
+                        for x in sub.iter() {
+                            n += x.surface().len() + x.part_of_speech().len();
+                        }
+                    }
+                }
+                Ok(n)
+            });
+            match r {
+                Ok(Ok(_)) => {}
+                Ok(Err(e)) => {
+                    res.ok = false;
+                    res.msg = format!("analysis of {:?} in mode {:?} returned an error: {}", t, mode, e);
+                    return res;
+                }
+                Err(p) => {
+                    res.ok = false;
+                    res.msg = format!("analysis of {:?} in mode {:?} panicked: {}", t, mode, p);
+                    return res;
+                }
+            }
+        }
+    }
+    res
+}
+
+fn probes(case: &Case) -> Vec<String> {
+    let mut all = String::new();
+    let mut v = vec![];
+    for r in case.recs.iter().take(40) {
+        all.push_str(&r.surface);
+        v.push(r.surface.clone());
+    }
+    v.truncate(12);
+    v.push(format!("{}x1。", all));
+    v.push((90..96).map(surface_of).collect::<String>());
+    v.push(String::new());
+    v
+}
+
+fn desc(case: &Case, matrix: &Option<String>, lexicon: &str, shape: &str) -> Value {
+    let lx: String = if lexicon.len() > 3000 { format!("{}...[{} bytes]", lexicon.chars().take(300).collect::<String>(), lexicon.len()) } else { lexicon.to_string() };
+    json!({"kind": "c06", "shape": shape, "user": matches!(case.base, Base::User), "matrix": matrix, "lexicon": lx,
+           "known_class": if case.recs.iter().any(|r| !r.splits_concat) { KNOWN_SPLIT } else { "" }})
+}
+
+fn emit(sink: &mut Sink, env: &Env, rng: &mut Rng, case: &Case, shape: &str) {
+    let matrix = case.matrix_text(rng);
+    let lexicon = case.lexicon_text();
+    run_texts(sink, env, Some(case), matrix, lexicon, shape, false);
+}
+
+/// run one (matrix text, lexicon text) pair; with `case` the Coq term is produced too
+fn run_texts(sink: &mut Sink, env: &Env, case: Option<&Case>, matrix: Option<String>, lexicon: String, shape: &str, verbose: bool) {
+    let user = matrix.is_none();
+    let b = build(env, matrix.as_ref().map(|m| m.as_bytes()), lexicon.as_bytes());
+    let pr = match case {
+        Some(c) => probes(c),
+        None => vec![lexicon.chars().filter(|c| !c.is_ascii() && *c != '\u{feff}').take(60).collect::<String>(), "あいxか1。".to_string()],
+    };
+    let lr = if b.status == "SOk" { load_and_analyse(env, user, &b.bytes, &pr) } else { LoadResult { ok: true, msg: String::new(), dims: (0, 0), cells: vec![] } };
+    sink.tag(shape);
+    sink.tag(&format!("impl={}", b.status));
+    sink.tag(if user { "user_dictionary" } else { "system_dictionary" });
+    let mismatch = case.map(|c| c.recs.iter().any(|r| !r.splits_concat)).unwrap_or(false);
+    let d = match case {
+        Some(c) => desc(c, &matrix, &lexicon, shape),
+        None => json!({"kind": "c06-raw", "shape": shape, "matrix": matrix, "lexicon": lexicon, "known_class": ""}),
+    };
+    if verbose {
+        println!("matrix text: {:?}\nlexicon text: {:?}", matrix, lexicon);
+        println!("implementation: build {} {}", b.status, b.msg);
+        println!("  compiled bytes: {}; loads and analyses: {} {}", b.bytes.len(), lr.ok, lr.msg);
+        println!("  matrix read back: dims {:?}, cells {:?}", lr.dims, lr.cells.iter().take(30).collect::<Vec<_>>());
+    }
+    let id = match case {
+        Some(c) => {
+            // the known finding is excluded from the predicate only for the analysis clause; everything else is still compared
+            let analyses = lr.ok || (mismatch && lr.msg.contains("analysis"));
+            let term = format!(
+                "check_build {} {} ({}, {}) {} {}",
+                c.coq(),
+                b.status,
+                cz(lr.dims.0),
+                cz(lr.dims.1),
+                clist(lr.cells.iter().map(|(l, r, v)| format!("({}, {}, {})", cz(*l), cz(*r), cz(*v)))),
+                cbool(analyses)
+            );
+            sink.case(term, d, b.status != "SOk" || c.recs.len() > 1)
+        }
+        None => sink.case_rust_only(d, b.status != "SOk"),
+    };
+    if b.status == "SPanic" {
+        sink.fail(id, &format!("compilation panicked: {}", b.msg), "");
+    } else if b.status == "SOk" && !lr.ok {
+        let cls = if mismatch && lr.msg.contains("analysis") { KNOWN_SPLIT } else { "" };
+        sink.fail(id, &format!("compilation reported success, then {}", lr.msg), cls);
+    }
+}
+
+// ---------------------------------------------------------------- generators
+
+fn good_matrix(nl: i64, nr: i64, rng: &mut Rng) -> Vec<Vec<Tok>> {
+    let mut v = vec![];
+    if rng.chance(1, 4) {
+        v.push(vec![]);
+    }
+    v.push(vec![Tok::Num(nl), Tok::Num(nr)]);
+    for r in 0..nr {
+        for l in 0..nl {
+            if rng.chance(1, 10) {
+                v.push(vec![]);
+            }
+            if rng.chance(5, 6) {
+                v.push(vec![Tok::Num(l), Tok::Num(r), Tok::Num(rng.range(-300, 300))]);
+            }
+        }
+    }
+    v
+}
+
+fn good_rec(i: usize, nl: i64, nr: i64, rng: &mut Rng) -> Rec {
+    let indexed = rng.chance(9, 10);
+    Rec {
+        ncols: if rng.chance(1, 3) { 18 } else { 19 },
+        strings: StrKind::Ok,
+        surface: surface_of(i),
+        left: Num::Lit(if indexed { rng.below(nr.max(1) as u64) as i64 } else { -1 }),
+        right: Num::Lit(if indexed { rng.below(nl.max(1) as u64) as i64 } else { -1 }),
+        cost: Num::Lit(rng.range(-200, 3000)),
+        pos: rng.below(3) as usize,
+        dic_form: None,
+        mode: Some(0),
+        split_a: vec![],
+        split_b: vec![],
+        wstruct: vec![],
+        syn_ok: true,
+        has_syn: true,
+        splits_concat: true,
+    }
+}
+
+/// valid lexicon of n rows for an nl x nr matrix, with compounds whose splits concatenate
+fn good_recs(n: usize, nl: i64, nr: i64, user: bool, rng: &mut Rng) -> Vec<Rec> {
+    let mut recs: Vec<Rec> = (0..n).map(|i| good_rec(i, nl, nr, rng)).collect();
+    // at least one indexed entry (a lexicon without any is a compilation error)
+    if !recs.iter().any(|r| matches!(r.left, Num::Lit(x) if x >= 0)) {
+        recs[0].left = Num::Lit(0);
+        recs[0].right = Num::Lit(0);
+    }
+    let mut is_part = vec![false; n];
+    for i in 0..n {
+        if n >= 3 && !is_part[i] && rng.chance(1, 4) {
+            let j = rng.below(n as u64) as usize;
+            let k = rng.below(n as u64) as usize;
+            let simple = |r: &Rec| r.split_a.is_empty() && r.split_b.is_empty();
+            if simple(&recs[j]) && simple(&recs[k]) && j != i && k != i {
+                is_part[j] = true;
+                is_part[k] = true;
+                recs[i].surface = format!("{}{}", recs[j].surface, recs[k].surface);
+                let refs = vec![Wid::Lit(user, j as i64), Wid::Lit(user, k as i64)];
+                recs[i].mode = Some(if rng.chance(1, 2) { 1 } else { 2 });
+                recs[i].split_a = refs.clone();
+                if rng.chance(1, 2) {
+                    recs[i].split_b = refs.clone();
+                }
+                if rng.chance(1, 2) {
+                    recs[i].wstruct = refs;
+                }
+            }
+        }
+        if !user && rng.chance(1, 6) {
+            // dictionary form: any existing entry.  Not generated for user dictionaries: the reader resolves a user entry's
+            // dictionary form inside the user lexicon while the builder validates it against the system one (owned by C05/C12)
+            recs[i].dic_form = Some(Wid::Lit(false, rng.below(n as u64) as i64));
+        }
+    }
+    recs
+}
+
+fn num_grid(rng: &mut Rng, d: i64, other: i64) -> Num {
+    match rng.below(12) {
+        0 => Num::Bad("x".into()),
+        1 => Num::Bad("".into()),
+        2 => Num::Bad("1.5".into()),
+        3 => Num::Lit(32768),
+        4 => Num::Lit(-32769),
+        5 => Num::Lit(d),
+        6 => Num::Lit(d + 1),
+        7 => Num::Lit(other),
+        8 => Num::Lit(d - 1),
+        9 => Num::Lit(-2),
+        10 => Num::Lit(-1),
+        _ => Num::Lit(32767),
+    }
+}
+fn wid_grid(rng: &mut Rng, n: usize, user: bool) -> Wid {
+    let n = n as i64;
+    match rng.below(10) {
+        0 => Wid::Bad("x".into()),
+        1 => Wid::Bad("-1".into()),
+        2 => Wid::Lit(false, n),
+        3 => Wid::Lit(false, n + 5),
+        4 => Wid::Lit(true, n),
+        5 => Wid::Lit(true, 0),
+        6 => Wid::Lit(false, 268435455),
+        7 => Wid::Lit(false, 268435456),
+        8 => Wid::Lit(false, if user { SYS_WORDS as i64 } else { n - 1 }),
+        _ => Wid::Lit(false, 4294967296),
+    }
+}
+
+/// damage exactly one aspect of one row
+fn mutate_rec(recs: &mut Vec<Rec>, nl: i64, nr: i64, user: bool, rng: &mut Rng) -> &'static str {
+    let n = recs.len();
+    let i = rng.below(n as u64) as usize;
+    let r = &mut recs[i];
+    match rng.below(14) {
+        0 => {
+            r.ncols = 1 + rng.below(17) as usize;
+            "row_truncated"
+        }
+        1 => {
+            r.left = num_grid(rng, nr, nl);
+            "left_id_grid"
+        }
+        2 => {
+            r.right = num_grid(rng, nl, nr);
+            "right_id_grid"
+        }
+        3 => {
+            r.cost = match rng.below(4) {
+                0 => Num::Lit(32768),
+                1 => Num::Lit(-32769),
+                2 => Num::Bad("abc".into()),
+                _ => Num::Lit(-32768),
+            };
+            "cost_grid"
+        }
+        4 => {
+            r.strings = if rng.chance(1, 2) { StrKind::TooLong } else { StrKind::BadEscape };
+            if r.ncols < 13 {
+                r.ncols = 19;
+            }
+            "string_limit_or_escape"
+        }
+        5 if !user => {
+            r.dic_form = Some(wid_grid(rng, n, user));
+            "dic_form_grid"
+        }
+        5 => {
+            r.dic_form = Some(if rng.chance(1, 2) { Wid::Bad("x".into()) } else { Wid::Lit(false, SYS_WORDS as i64 + 3) });
+            "dic_form_grid"
+        }
+        6 => {
+            r.mode = match rng.below(3) {
+                0 => None,
+                1 => Some(1),
+                _ => Some(2),
+            };
+            "mode"
+        }
+        7 => {
+            r.mode = Some(2);
+            r.split_a = vec![wid_grid(rng, n, user)];
+            r.splits_concat = true; // decided below for the valid-reference case
+            "split_a_grid"
+        }
+        8 => {
+            r.mode = Some(1);
+            r.split_b = vec![wid_grid(rng, n, user), Wid::Lit(user, 0)];
+            "split_b_grid"
+        }
+        9 => {
+            r.wstruct = vec![wid_grid(rng, n, user)];
+            "word_structure_grid"
+        }
+        10 => {
+            let k = if rng.chance(1, 2) { 127 } else { 128 };
+            r.wstruct = (0..k).map(|_| Wid::Lit(user, 0)).collect();
+            "array_length_127_128"
+        }
+        11 => {
+            r.has_syn = true;
+            r.ncols = 19;
+            r.syn_ok = false;
+            "synonym_bad"
+        }
+        12 => {
+            if rng.chance(1, 2) {
+                r.surface = String::new();
+                "empty_surface"
+            } else {
+                r.surface = if rng.chance(1, 2) { format!("\u{0}{}", r.surface) } else { format!("{}\u{0}あ", r.surface) };
+                "nul_in_surface"
+            }
+        }
+        _ => {
+            r.mode = Some(0);
+            r.split_a = vec![Wid::Lit(user, 0)];
+            "mode_a_with_split"
+        }
+    }
+}
+
+/// splits that reference existing entries whose surfaces do not spell the headword make analysis fail (known finding):
+/// decide the flag from the rendered case
+fn fix_concat_flags(recs: &mut Vec<Rec>, user: bool) {
+    let n = recs.len();
+    let surf: Vec<String> = recs.iter().map(|r| r.surface.clone()).collect();
+    let sys_surf: Vec<String> = (0..SYS_WORDS).map(|i| surface_of(90 + i)).collect();
+    for r in recs.iter_mut() {
+        let mut ok = true;
+        for list in [&r.split_a, &r.split_b] {
+            if list.is_empty() {
+                continue;
+            }
+            let mut cat = String::new();
+            let mut resolvable = true;
+            for w in list.iter() {
+                match w {
+                    Wid::Lit(u, k) => {
+                        let k = *k as usize;
+                        if user && !*u {
+                            if k < SYS_WORDS { cat.push_str(&sys_surf[k]) } else { resolvable = false }
+                        } else if (user && *u) || (!user && !*u) {
+                            if k < n { cat.push_str(&surf[k]) } else { resolvable = false }
+                        } else {
+                            resolvable = false
+                        }
+                    }
+                    Wid::Bad(_) => resolvable = false,
+                }
+            }
+            if resolvable && cat != r.surface {
+                ok = false;
+            }
+        }
+        r.splits_concat = ok;
+    }
+}
+
+struct FailingWriter {
+    limit: usize,
+    written: usize,
+}
+impl Write for FailingWriter {
+    fn write(&mut self, buf: &[u8]) -> std::io::Result<usize> {
+        if self.written >= self.limit {
+            return Err(std::io::Error::new(std::io::ErrorKind::Other, "sink full"));
+        }
+        let n = usize::min(buf.len(), self.limit - self.written);
+        self.written += n;
+        Ok(n)
+    }
+    fn flush(&mut self) -> std::io::Result<()> {
+        Ok(())
+    }
+}
+
+fn fault_enumeration(sink: &mut Sink, env: &Env, rng: &mut Rng, case: &Case, step: usize) {
+    let matrix = case.matrix_text(rng);
+    let lexicon = case.lexicon_text();
+    let full = build(env, matrix.as_ref().map(|m| m.as_bytes()), lexicon.as_bytes());
+    if full.status != "SOk" {
+        return;
+    }
+    let total = full.bytes.len();
+    let mut results = vec![];
+    let mut bad: Option<String> = None;
+    let mut k = 0;
+    while k <= total + 1 {
+        let mut w = FailingWriter { limit: k, written: 0 };
+        let st = match build_into(env, matrix.as_ref().map(|m| m.as_bytes()), lexicon.as_bytes(), &mut w) {
+            Ok(Ok(())) => "SOk",
+            Ok(Err(_)) => "SErr",
+            Err(p) => {
+                bad.get_or_insert(format!("sink failing after {} of {} bytes: compilation panicked: {}", k, total, p));
+                "SPanic"
+            }
+        };
+        if st == "SOk" && k < total {
+            bad.get_or_insert(format!("sink failing after {} of {} bytes was reported as success", k, total));
+        }
+        if st != "SOk" && k >= total {
+            bad.get_or_insert(format!("sink accepting {} >= {} bytes: compilation failed", k, total));
+        }
+        results.push((k, st));
+        k += if k + step > total && k < total { total - k } else { step };
+    }
+    // a sink that takes one byte per call must not change the outcome
+    struct OneByte(Vec<u8>);
+    impl Write for OneByte {
+        fn write(&mut self, buf: &[u8]) -> std::io::Result<usize> {
+            if buf.is_empty() { return Ok(0); }
+            self.0.push(buf[0]);
+            Ok(1)
+        }
+        fn flush(&mut self) -> std::io::Result<()> { Ok(()) }
+    }
+    let mut ob = OneByte(vec![]);
+    match build_into(env, matrix.as_ref().map(|m| m.as_bytes()), lexicon.as_bytes(), &mut ob) {
+        Ok(Ok(())) => {
+            // the header carries the compile time: compare everything after it
+            if ob.0.len() != total || ob.0[272..] != full.bytes[272..] {
+                bad.get_or_insert("a sink accepting one byte per call changed the compiled bytes".to_string());
+            }
+        }
+        _ => {
+            bad.get_or_insert("a sink accepting one byte per call made compilation fail".to_string());
+        }
+    }
+    sink.tag("fault_enumeration_inputs");
+    sink.tag_n("fault_enumeration_offsets", results.len() as u64);
+    let term = format!(
+        "check_sink_all {} {} {}",
+        case.coq(),
+        cz(total as i64),
+        clist(results.iter().map(|(k, st)| format!("({}, {})", cz(*k as i64), st)))
+    );
+    let mut d = desc(case, &matrix, &lexicon, "fault_enumeration");
+    d["total_bytes"] = json!(total);
+    let id = sink.case(term, d, true);
+    if let Some(b) = bad {
+        sink.fail(id, &b, "");
+    }
+}
+
+fn damage(text: &str, rng: &mut Rng) -> Vec<u8> {
+    let mut b = text.as_bytes().to_vec();
+    for _ in 0..(1 + rng.below(3)) {
+        if b.is_empty() {
+            break;
+        }
+        let p = rng.below(b.len() as u64) as usize;
+        match rng.below(8) {
+            0 => b.truncate(p),
+            1 => b[p] = rng.below(256) as u8,
+            2 => b.insert(p, b'"'),
+            3 => b.insert(p, b','),
+            4 => b.insert(p, b'\n'),
+            5 => {
+                b.remove(p);
+            }
+            6 => b.insert(p, *rng.pick(&[0xffu8, 0xc3, 0x00, b'\r', b'\\', b'/', b'-', b'U'])),
+            _ => {
+                let q = rng.below(b.len() as u64) as usize;
+                b.swap(p, q)
+            }
+        }
+    }
+    b
+}
+
+fn run_raw(sink: &mut Sink, env: &Env, matrix: Option<Vec<u8>>, lexicon: Vec<u8>, shape: &str) {
+    let b = build(env, matrix.as_deref(), &lexicon);
+    sink.tag(shape);
+    sink.tag(&format!("impl={}", b.status));
+    let d = json!({"kind": "c06-raw", "shape": shape, "matrix_bytes": matrix, "lexicon_bytes": lexicon, "known_class": ""});
+    let id = sink.case_rust_only(d, b.status != "SOk");
+    if b.status == "SPanic" {
+        sink.fail(id, &format!("compilation panicked: {}", b.msg), "");
+        return;
+    }
+    if b.status == "SOk" {
+        let text = String::from_utf8_lossy(&lexicon).to_string();
+        let probe: String = text.chars().filter(|c| !c.is_ascii() && *c != '\u{fffd}').take(40).collect();
+        let lr = load_and_analyse(env, matrix.is_none(), &b.bytes, &[probe, "あいxか1。".to_string()]);
+        if !lr.ok {
+            // damaged split references can produce the known finding too: splits that still resolve but no longer spell the headword
+            let col = |l: &str, k: usize| l.split(',').nth(k).map(|c| c != "*" && !c.is_empty()).unwrap_or(false);
+            let cls = if lr.msg.contains("analysis") && matrix.is_none() && text.lines().any(|l| col(l, 13)) {
+                KNOWN_USER_DICFORM
+            } else if lr.msg.contains("analysis") && text.lines().any(|l| col(l, 15) || col(l, 16)) {
+                KNOWN_SPLIT
+            } else {
+                ""
+            };
+            sink.fail(id, &format!("compilation of damaged input reported success, then {}", lr.msg), cls);
+        }
+    }
+}
+
+pub fn run(args: &Args) {
+    let mut sink = Sink::new("C06", &args.out, &["Model.GuardLang", "Model.Params", "Model.Build"], args.seed, &args.tier);
+    sink.shard_size = 60;
+    sink.rule("system dictionaries (matrix text nl x nr in 0..6, square and non-square, blank lines / tabs / missing cells) and user dictionaries (against a 4x3 system dictionary) with 1..14 rows incl. compounds with split / word-structure references; structured stream = valid input with exactly one damaged aspect (row arity, left/right/cost from the boundary grid, over-long string / bad escape, dangling or malformed references, array length 127/128, mode, synonyms, empty surface; matrix: empty text, header arity / sign / non-numeric, coordinates at and beyond the dimension, negative, wrong arity); malformed stream = byte-level damage (truncation, quotes, invalid UTF-8, swaps); fault enumeration = sink accepting exactly k bytes for every k (quick: every k of small dictionaries); non-trivial = compilation failed or more than one row; distinct by generated Coq term");
+    let dir = args.work.join("c06_res");
+    std::fs::create_dir_all(&dir).unwrap();
+    std::fs::copy(format!("{}/sudachi/tests/resources/char.def", repo()), dir.join("char.def")).unwrap();
+    let mut env = Env { dir, sys_bytes: vec![] };
+    {
+        let mut b = DictBuilder::new_system();
+        b.read_conn(sys_matrix_text().as_bytes()).expect("sys matrix");
+        b.read_lexicon(sys_lexicon_text().as_bytes()).expect("sys lexicon");
+        b.resolve().expect("sys resolve");
+        let mut out = vec![];
+        b.compile(&mut out).expect("sys compile");
+        env.sys_bytes = out;
+    }
+    if let Some(p) = &args.replay {
+        let v: Value = serde_json::from_str(&std::fs::read_to_string(p).unwrap()).unwrap();
+        let c = &v["case"];
+        let bytes = |x: &Value| -> Option<Vec<u8>> { x.as_array().map(|a| a.iter().map(|b| b.as_u64().unwrap() as u8).collect()) };
+        let (matrix, lexicon): (Option<Vec<u8>>, Vec<u8>) = if c["kind"] == "c06-raw" && !c["lexicon_bytes"].is_null() {
+            (bytes(&c["matrix_bytes"]), bytes(&c["lexicon_bytes"]).unwrap())
+        } else {
+            (c["matrix"].as_str().map(|s| s.as_bytes().to_vec()), c["lexicon"].as_str().unwrap_or("").as_bytes().to_vec())
+        };
+        println!("replaying C06 case (shape {})", c["shape"]);
+        let m = matrix.map(|m| String::from_utf8_lossy(&m).to_string());
+        run_texts(&mut sink, &env, None, m.clone(), String::from_utf8_lossy(&lexicon).to_string(), "replay", true);
+        if c["shape"] == "fault_enumeration" {
+            let mb = m.as_ref().map(|x| x.as_bytes());
+            let total = build(&env, mb, &lexicon).bytes.len();
+            println!("fault enumeration over {} bytes:", total);
+            let mut wrong = 0;
+            for k in 0..=total {
+                let mut w = FailingWriter { limit: k, written: 0 };
+                let st = match build_into(&env, mb, &lexicon, &mut w) {
+                    Ok(Ok(())) => "Ok",
+                    Ok(Err(_)) => "Err",
+                    Err(_) => "Panic",
+                };
+                if (k < total && st != "Err") || (k >= total && st != "Ok") {
+                    wrong += 1;
+                    println!("  sink accepting {} of {} bytes: compilation reports {}", k, total, st);
+                    let id = sink.case_rust_only(json!({"kind": "c06-raw", "shape": "fault_enumeration_replay", "k": k}), true);
+                    sink.fail(id, &format!("sink accepting {} of {} bytes: compilation reports {}", k, total, st), "");
+                }
+            }
+            println!("  offsets with a wrong outcome: {}", wrong);
+        }
+        sink.finish();
+        return;
+    }
+    let mut rng = Rng::new(args.seed);
+    let env = env;
+    // ---- directed: the defects of the pinned tree and their neighbours
+    let one = |l: i64, r: i64| -> Vec<Rec> {
+        let mut rr = good_rec(0, 1, 1, &mut Rng::new(7));
+        rr.left = Num::Lit(l);
+        rr.right = Num::Lit(r);
+        vec![rr]
+    };
+    let m33 = |extra: Vec<Vec<Tok>>| -> Base {
+        let mut v = vec![vec![Tok::Num(3), Tok::Num(3)], vec![Tok::Num(0), Tok::Num(0), Tok::Num(5)]];
+        v.extend(extra);
+        Base::System(v)
+    };
+    let directed: Vec<(&str, Case)> = vec![
+        ("directed_empty_matrix_text", Case { base: Base::System(vec![]), recs: one(0, 0) }),
+        ("directed_blank_matrix_text", Case { base: Base::System(vec![vec![], vec![]]), recs: one(0, 0) }),
+        ("directed_coord_eq_dim", Case { base: m33(vec![vec![Tok::Num(3), Tok::Num(0), Tok::Num(7)]]), recs: one(0, 0) }),
+        ("directed_coord_eq_dim", Case { base: m33(vec![vec![Tok::Num(0), Tok::Num(3), Tok::Num(7)]]), recs: one(0, 0) }),
+        ("directed_coord_negative", Case { base: m33(vec![vec![Tok::Num(-1), Tok::Num(0), Tok::Num(7)]]), recs: one(0, 0) }),
+        ("directed_coord_negative", Case { base: m33(vec![vec![Tok::Num(0), Tok::Num(-1), Tok::Num(7)]]), recs: one(0, 0) }),
+        ("directed_coord_negative", Case { base: m33(vec![vec![Tok::Num(-1), Tok::Num(1), Tok::Num(7)]]), recs: one(0, 0) }),
+        ("directed_negative_right_id", Case { base: m33(vec![]), recs: one(0, -5) }),
+        ("directed_negative_right_id", Case { base: m33(vec![]), recs: one(0, -1) }),
+        ("directed_not_indexed", Case { base: m33(vec![]), recs: one(-1, -1) }),
+        ("directed_non_square", Case { base: Base::System(good_matrix(3, 2, &mut Rng::new(3))), recs: one(2, 1) }),
+        ("directed_non_square", Case { base: Base::System(good_matrix(3, 2, &mut Rng::new(3))), recs: one(1, 2) }),
+        ("directed_non_square", Case { base: Base::System(good_matrix(2, 3, &mut Rng::new(3))), recs: one(2, 1) }),
+        ("directed_zero_dimension", Case { base: Base::System(vec![vec![Tok::Num(0), Tok::Num(0)]]), recs: one(-1, -1) }),
+        ("directed_zero_dimension", Case { base: Base::System(vec![vec![Tok::Num(0), Tok::Num(3)]]), recs: one(-1, -1) }),
+        ("directed_negative_dimension", Case { base: Base::System(vec![vec![Tok::Num(-1), Tok::Num(3)]]), recs: one(0, 0) }),
+        ("directed_header_three_fields", Case { base: Base::System(vec![vec![Tok::Num(3), Tok::Num(3), Tok::Num(3)]]), recs: one(0, 0) }),
+        ("directed_user_non_square", Case { base: Base::User, recs: one(3, 2) }),
+        ("directed_user_non_square", Case { base: Base::User, recs: one(2, 3) }),
+        ("directed_user_negative_right_id", Case { base: Base::User, recs: one(0, -3) }),
+    ];
+    for (shape, c) in &directed {
+        emit(&mut sink, &env, &mut rng, c, shape);
+    }
+    // split units that do not spell the headword (known finding)
+    {
+        let mut recs = good_recs(4, 3, 3, false, &mut Rng::new(11));
+        for r in recs.iter_mut() {
+            r.split_a.clear();
+            r.split_b.clear();
+            r.wstruct.clear();
+            r.mode = Some(0);
+        }
+        recs[0].surface = "あい".into();
+        recs[1].surface = "ううう".into();
+        recs[2].surface = "え".into();
+        recs[0].mode = Some(2);
+        recs[0].split_a = vec![Wid::Lit(false, 1), Wid::Lit(false, 2)];
+        for r in recs.iter_mut() {
+            r.left = Num::Lit(0);
+            r.right = Num::Lit(0);
+        }
+        fix_concat_flags(&mut recs, false);
+        emit(&mut sink, &env, &mut rng, &Case { base: Base::System(good_matrix(3, 3, &mut Rng::new(5))), recs }, "directed_split_surface_mismatch");
+    }
+    // user-dictionary dictionary-form reference (known finding, reader side): replayed on the implementation every run
+    run_raw(&mut sink, &env, None, "ああ,0,0,100,ああ,名詞,普通名詞,一般,*,*,*,ヨミ,ああ,2,A,*,*,*\n".as_bytes().to_vec(), "directed_user_dic_form_reference");
+    // NUL byte in a surface (was a panic of the trie builder)
+    run_raw(&mut sink, &env, Some(sys_matrix_text().into_bytes()), "\u{0}ああ,0,0,100,ああ,名詞,普通名詞,一般,*,*,*,ヨミ,ああ,*,A,*,*,*\n".as_bytes().to_vec(), "directed_nul_in_surface");
+    run_raw(&mut sink, &env, Some(sys_matrix_text().into_bytes()), Vec::new(), "directed_empty_lexicon");
+    // ---- structured stream
+    let n = args.n(700, 12000);
+    for it in 0..n {
+        let user = rng.chance(1, 4);
+        let (nl, nr) = if user {
+            (SYS_NL, SYS_NR)
+        } else {
+            let a = rng.range(1, 6);
+            (a, if rng.chance(1, 2) { a } else { rng.range(1, 6) })
+        };
+        let nrows = 1 + rng.below(14) as usize;
+        let mut recs = good_recs(nrows, nl, nr, user, &mut rng);
+        let mut lines = if user { vec![] } else { good_matrix(nl, nr, &mut rng) };
+        let shape: String;
+        match if it % 5 == 0 { 0 } else { 1 + rng.below(if user { 1 } else { 2 }) } {
+            0 => shape = "all_valid".into(),
+            1 => shape = mutate_rec(&mut recs, nl, nr, user, &mut rng).into(),
+            _ => {
+                // damage the matrix text
+                let k = rng.below(10);
+                let hdr = lines.iter().position(|l| !l.is_empty()).unwrap();
+                shape = match k {
+                    0 => {
+                        lines.clear();
+                        if rng.chance(1, 2) {
+                            lines.push(vec![]);
+                        }
+                        "matrix_no_header".into()
+                    }
+                    1 => {
+                        lines[hdr] = vec![Tok::Num(nl)];
+                        "matrix_header_one_field".into()
+                    }
+                    2 => {
+                        lines[hdr] = vec![Tok::Num(nl), Tok::Bad("x".into())];
+                        "matrix_header_non_numeric".into()
+                    }
+                    3 => {
+                        lines[hdr] = vec![Tok::Num(*rng.pick(&[-1i64, 32768, -32769, 0])), Tok::Num(nr)];
+                        "matrix_header_grid".into()
+                    }
+                    4 => {
+                        let l = *rng.pick(&[nl, nl + 1, -1, 32767, 32768, -32768]);
+                        lines.push(vec![Tok::Num(l), Tok::Num(rng.below(nr as u64) as i64), Tok::Num(1)]);
+                        "matrix_left_coord_grid".into()
+                    }
+                    5 => {
+                        let r = *rng.pick(&[nr, nr + 1, -1, 32767, 32768, -32768]);
+                        lines.push(vec![Tok::Num(rng.below(nl as u64) as i64), Tok::Num(r), Tok::Num(1)]);
+                        "matrix_right_coord_grid".into()
+                    }
+                    6 => {
+                        lines.push(vec![Tok::Num(0), Tok::Num(0)]);
+                        "matrix_line_two_fields".into()
+                    }
+                    7 => {
+                        lines.push(vec![Tok::Num(0), Tok::Num(0), Tok::Num(1), Tok::Num(2)]);
+                        "matrix_line_four_fields".into()
+                    }
+                    8 => {
+                        lines.push(vec![Tok::Num(0), Tok::Num(0), Tok::Num(*rng.pick(&[32768i64, -32769]))]);
+                        "matrix_cost_out_of_i16".into()
+                    }
+                    _ => {
+                        lines.push(vec![Tok::Num(0), Tok::Bad("1.0".into()), Tok::Num(1)]);
+                        "matrix_line_non_numeric".into()
+                    }
+                };
+            }
+        }
+        fix_concat_flags(&mut recs, user);
+        let case = Case { base: if user { Base::User } else { Base::System(lines) }, recs };
+        emit(&mut sink, &env, &mut rng, &case, &shape);
+    }
+    // ---- fault enumeration
+    let ninputs = args.n(6, 40);
+    for i in 0..ninputs {
+        let user = i % 3 == 2;
+        let (nl, nr) = if user { (SYS_NL, SYS_NR) } else { (rng.range(1, 3), rng.range(1, 3)) };
+        let recs = good_recs(1 + rng.below(4) as usize, nl, nr, user, &mut rng);
+        let case = Case { base: if user { Base::User } else { Base::System(good_matrix(nl, nr, &mut rng)) }, recs };
+        fault_enumeration(&mut sink, &env, &mut rng, &case, 1);
+    }
+    // ---- malformed stream (implementation only)
+    for _ in 0..args.n(400, 8000) {
+        let user = rng.chance(1, 4);
+        let (nl, nr) = if user { (SYS_NL, SYS_NR) } else { (rng.range(1, 4), rng.range(1, 4)) };
+        let recs = good_recs(1 + rng.below(6) as usize, nl, nr, user, &mut rng);
+        let case = Case { base: if user { Base::User } else { Base::System(good_matrix(nl, nr, &mut rng)) }, recs };
+        let matrix = case.matrix_text(&mut rng);
+        let lexicon = case.lexicon_text();
+        let which = rng.below(3);
+        let m = matrix.map(|m| if which != 0 { damage(&m, &mut rng) } else { m.into_bytes() });
+        let l = if which != 1 { damage(&lexicon, &mut rng) } else { lexicon.into_bytes() };
+        run_raw(&mut sink, &env, m, l, if user { "damaged_bytes_user" } else { "damaged_bytes_system" });
+    }
+    sink.finish();
 }
